@@ -13,6 +13,7 @@ import Driver.EvmMachine
 import Driver.Partition
 import Driver.Power
 import Driver.Verifreg
+import Driver.Market
 
 /-- generic stdin/stdout loop over a pure handler -/
 partial def loop {σ : Type} (h : IO.FS.Stream) (out : IO.FS.Stream) (step : σ → String → σ × String)
@@ -45,4 +46,5 @@ def main (args : List String) : IO UInt32 := do
   | ["power"] => loop stdin stdout Driver.Power.handle Driver.Power.dinit; return 0
   | ["verifreg"] =>
     loop stdin stdout Driver.Verifreg.handle { sys := BA.Verifreg.init 0 [] }; return 0
+  | ["market"] => loop stdin stdout Driver.Market.handle BA.Market.init; return 0
   | _ => IO.eprintln "usage: driver <model>"; return 2
